@@ -10,6 +10,8 @@
 //   -DCFG_BARE=0     the last CFG_BARE states define no callbacks at all
 //   -DCFG_PARTIAL=0  != 0: every state class defines only a (pseudo-random, per state) subset of the callbacks; needs CFG_INJ=1
 //   -DCFG_HEADOUT=3  plan outcome callbacks the root head class defines: bit 0 planSucceeded, bit 1 planFailed (CFG_PARTIAL=0 only)
+//   -DCFG_VIRT=0     1: the injections declare their callbacks virtual
+//   -DCFG_CONSTCB=0  1: the state classes declare their (non-query) callbacks const
 //   -DCFG_ORDER=0    order in which the configuration aliases are applied (0..3)
 // plus the library's own FFSM2_ENABLE_* switches on the command line.
 #pragma once
@@ -46,6 +48,12 @@
 #endif
 #ifndef CFG_HEADOUT
 #define CFG_HEADOUT 3
+#endif
+#ifndef CFG_VIRT
+#define CFG_VIRT 0
+#endif
+#ifndef CFG_CONSTCB
+#define CFG_CONSTCB 0
 #endif
 
 #include VERIF_FFSM2_HEADER
@@ -244,7 +252,7 @@ inline const char* name() {
 	static char buf[256];
 	snprintf(buf, sizeof buf, "N%u%s%s-L%u-C%u-P%d-X%d-K%u%s%s%s%s%s%s",
 			 N, HEAD ? "h" : "p", MANUAL ? "m" : "a", L, CAP, CFG_PAYLOAD, CFG_CTX, K,
-			 BARE ? "-bare" : (PARTIAL ? "-partial" : (CFG_HEADOUT == 3 ? "" : CFG_HEADOUT == 2 ? "-onlyPlanFailed" : CFG_HEADOUT == 1 ? "-onlyPlanSucceeded" : "-noOutcomeCallbacks")), HAS_PLANS ? "-plans" : "", HAS_SERIAL ? "-ser" : "", HAS_HISTORY ? "-hist" : "",
+			 CFG_VIRT ? "-virtinj" : CFG_CONSTCB ? "-constcb" : BARE ? "-bare" : (PARTIAL ? "-partial" : (CFG_HEADOUT == 3 ? "" : CFG_HEADOUT == 2 ? "-onlyPlanFailed" : CFG_HEADOUT == 1 ? "-onlyPlanSucceeded" : "-noOutcomeCallbacks")), HAS_PLANS ? "-plans" : "", HAS_SERIAL ? "-ser" : "", HAS_HISTORY ? "-hist" : "",
 			 HAS_VERBOSE ? "-vlog" : (HAS_LOG ? "-log" : ""), "");
 	return buf;
 }
